@@ -169,6 +169,8 @@ class StmtMixin:
     def opq_setitem(self, base, idx, v, node):
         """X[key] = v on an external value: functional update of the variable that holds X (the model decides whether the
         store is allowed on this kind of value - a store into caller-owned data is a C19 obligation)"""
+        if base.x == 'unknown':
+            return          # a store into state the model does not mention
         if '__setitem__' not in self.opq_models().get(base.x or 'any', {}):
             raise Unsupported(f'item store on opaque {base.x}')
         new = self.opq_call(base, '__setitem__', [idx, v], {}, node)
